@@ -39,7 +39,9 @@ Definition below (t : cty) (i c : N) : form := FAtom (SCmp CLt t (arg i) (SConst
 Definition equals (t : cty) (i c : N) : form := FAtom (SCmp CEq t (arg i) (SConst c)).
 
 (* roles: the codes whose documented meaning fits a parameter of that role *)
-Definition P (f : form) (codes : list N) : pspec := {| p_off := f; p_codes := codes |}.
+Definition P (f : form) (codes : list N) : pspec := {| p_off := f; p_may := f; p_codes := codes |}.
+(* must-refuse / may-refuse differ where the headers are silent and the wrappers disagree *)
+Definition PM (must may : form) (codes : list N) : pspec := {| p_off := must; p_may := may; p_codes := codes |}.
 Definition p_key i := P (isnull i) [NULL_KEY; NULL_EXP_KEY].      (* raw or expanded key material *)
 Definition p_ctx i := P (isnull i) [NULL_CTX].
 Definition p_mgr i := P (isnull i) [NULL_MGR].
@@ -95,14 +97,15 @@ Definition gcm_pre id callee leg :=
   E id Approved [p_key 0; p_key 1] (sh callee [0;1]) leg.
 
 (* ---- AES-CBC (approved): in, iv, keys, out, len.  len = 0 is a multiple of 16, hence in the
-   documented domain.  The encryption kernels process at least one block (do-while loop;
-   modelled, confirmed by the native harness: they fault on len = 0), so their
+   documented domain.  The kernels process at least one block (the encryption kernels and
+   the sse/avx decryption kernels are do-while loops; modelled, confirmed by the native
+   harnesses of C16 and C08: they read and write 16 bytes, or fault, on len = 0), so their
    precondition is len <> 0: the wrapper has to succeed without reaching them. *)
 Definition cbc id callee leg (pre : form) :=
   {| e_id := id; e_class := Approved; e_params := [p_src 0; p_iv 1; p_key 2; p_dst 3; p_cbc_len 4];
      e_shape := sh callee [0;1;2;3;4]; e_legacy := leg; e_pre := pre; e_samekey := FFalse |}.
 Definition cbc_enc id callee leg := cbc id callee leg (nonzero u64 4).
-Definition cbc_dec id callee leg := cbc id callee leg FTrue.
+Definition cbc_dec id callee leg := cbc id callee leg (nonzero u64 4).
 
 (* ---- AES key expansion (approved): key, enc schedule, dec schedule *)
 Definition keyexp id callee leg :=
@@ -121,104 +124,108 @@ Definition xts id callee leg (same : form) :=
 (* ---- multi-buffer hashes *)
 Definition HASH_UPDATE : N := 0.   Definition HASH_ENTIRE : N := 3.    (* ISAL_HASH_CTX_FLAG *)
 Definition hash_init c id callee leg := E id c [p_mgr 0] (sh callee [0]) leg.
-(* buffer may be NULL for FIRST / LAST (no data expected); flags and the busy/completed state
-   of the context are validated by the internal submit, whose verdict the wrapper maps *)
+(* buffer: the headers only say "pointer to buffer to be processed".  A NULL buffer with a
+   non-zero length must be refused (the data would be read through it); a NULL buffer with
+   len = 0 may be refused (the SHA/MD5 wrappers refuse it for UPDATE/ENTIRE, the SM3 wrapper
+   accepts it).  flags and the busy/completed state of the context are validated by the
+   internal submit, whose verdict the wrapper maps *)
 Definition hash_submit c id callee leg :=
   E id c [p_mgr 0; p_ctx 1; p_ctx 2;
-          P (FAnd (isnull 3) (FOr (equals u32 5 HASH_UPDATE) (equals u32 5 HASH_ENTIRE))) [NULL_SRC];
+          PM (FAnd (isnull 3) (nonzero u32 4)) (isnull 3) [NULL_SRC];
           p_free; p_free]
     (sh_out callee [0;1;3;4;5] 2 (RMapped [INVALID_FLAGS; ALREADY_PROCESSING; ALREADY_COMPLETED])) leg.
 Definition hash_flush c id callee leg := E id c [p_mgr 0; p_ctx 1] (sh_out callee [0] 1 RZero) leg.
 
 (* ---- multi-hash (not approved) *)
 Definition mh_init id callee leg := E id NonApproved [p_ctx 0] (sh_tail callee [0]) leg.
-Definition mh_update id callee leg := E id NonApproved [p_ctx 0; p_src 1; p_free] (sh_tail callee [0;1;2]) leg.
+Definition mh_update id callee leg :=
+  E id NonApproved [p_ctx 0; PM (FAnd (isnull 1) (nonzero u32 2)) (isnull 1) [NULL_SRC]; p_free] (sh_tail callee [0;1;2]) leg.
 Definition mh_final id callee leg := E id NonApproved [p_ctx 0; p_digest 1] (sh_tail callee [0;1]) leg.
 
 Definition neutral id :=
   E id Neutral [] (sh 0 []) [].
 
 Definition specs : list espec := [
-  gcm_full id_isal_aes_gcm_enc_128 id__aes_gcm_enc_128 [id_aes_gcm_enc_128];
-  gcm_full id_isal_aes_gcm_enc_256 id__aes_gcm_enc_256 [id_aes_gcm_enc_256];
-  gcm_full id_isal_aes_gcm_dec_128 id__aes_gcm_dec_128 [id_aes_gcm_dec_128];
-  gcm_full id_isal_aes_gcm_dec_256 id__aes_gcm_dec_256 [id_aes_gcm_dec_256];
-  gcm_full id_isal_aes_gcm_enc_128_nt id__aes_gcm_enc_128_nt [id_aes_gcm_enc_128_nt];
-  gcm_full id_isal_aes_gcm_enc_256_nt id__aes_gcm_enc_256_nt [id_aes_gcm_enc_256_nt];
-  gcm_full id_isal_aes_gcm_dec_128_nt id__aes_gcm_dec_128_nt [id_aes_gcm_dec_128_nt];
-  gcm_full id_isal_aes_gcm_dec_256_nt id__aes_gcm_dec_256_nt [id_aes_gcm_dec_256_nt];
-  gcm_init id_isal_aes_gcm_init_128 id__aes_gcm_init_128 [id_aes_gcm_init_128];
-  gcm_init id_isal_aes_gcm_init_256 id__aes_gcm_init_256 [id_aes_gcm_init_256];
-  gcm_update id_isal_aes_gcm_enc_128_update id__aes_gcm_enc_128_update [id_aes_gcm_enc_128_update];
-  gcm_update id_isal_aes_gcm_enc_256_update id__aes_gcm_enc_256_update [id_aes_gcm_enc_256_update];
-  gcm_update id_isal_aes_gcm_dec_128_update id__aes_gcm_dec_128_update [id_aes_gcm_dec_128_update];
-  gcm_update id_isal_aes_gcm_dec_256_update id__aes_gcm_dec_256_update [id_aes_gcm_dec_256_update];
-  gcm_update id_isal_aes_gcm_enc_128_update_nt id__aes_gcm_enc_128_update_nt [id_aes_gcm_enc_128_update_nt];
-  gcm_update id_isal_aes_gcm_enc_256_update_nt id__aes_gcm_enc_256_update_nt [id_aes_gcm_enc_256_update_nt];
-  gcm_update id_isal_aes_gcm_dec_128_update_nt id__aes_gcm_dec_128_update_nt [id_aes_gcm_dec_128_update_nt];
-  gcm_update id_isal_aes_gcm_dec_256_update_nt id__aes_gcm_dec_256_update_nt [id_aes_gcm_dec_256_update_nt];
-  gcm_final id_isal_aes_gcm_enc_128_finalize id__aes_gcm_enc_128_finalize [id_aes_gcm_enc_128_finalize];
-  gcm_final id_isal_aes_gcm_enc_256_finalize id__aes_gcm_enc_256_finalize [id_aes_gcm_enc_256_finalize];
-  gcm_final id_isal_aes_gcm_dec_128_finalize id__aes_gcm_dec_128_finalize [id_aes_gcm_dec_128_finalize];
-  gcm_final id_isal_aes_gcm_dec_256_finalize id__aes_gcm_dec_256_finalize [id_aes_gcm_dec_256_finalize];
-  gcm_pre id_isal_aes_gcm_pre_128 id__aes_gcm_pre_128 [id_aes_gcm_pre_128];
-  gcm_pre id_isal_aes_gcm_pre_256 id__aes_gcm_pre_256 [id_aes_gcm_pre_256];
-  cbc_enc id_isal_aes_cbc_enc_128 id__aes_cbc_enc_128 [id_aes_cbc_enc_128];
-  cbc_enc id_isal_aes_cbc_enc_192 id__aes_cbc_enc_192 [id_aes_cbc_enc_192];
-  cbc_enc id_isal_aes_cbc_enc_256 id__aes_cbc_enc_256 [id_aes_cbc_enc_256];
-  cbc_dec id_isal_aes_cbc_dec_128 id__aes_cbc_dec_128 [id_aes_cbc_dec_128];
-  cbc_dec id_isal_aes_cbc_dec_192 id__aes_cbc_dec_192 [id_aes_cbc_dec_192];
-  cbc_dec id_isal_aes_cbc_dec_256 id__aes_cbc_dec_256 [id_aes_cbc_dec_256];
-  keyexp id_isal_aes_keyexp_128 id__aes_keyexp_128 [id_aes_keyexp_128];
-  keyexp id_isal_aes_keyexp_192 id__aes_keyexp_192 [id_aes_keyexp_192];
-  keyexp id_isal_aes_keyexp_256 id__aes_keyexp_256 [id_aes_keyexp_256];
+  gcm_full id_isal_aes_gcm_enc_128 id_u_aes_gcm_enc_128 [id_aes_gcm_enc_128];
+  gcm_full id_isal_aes_gcm_enc_256 id_u_aes_gcm_enc_256 [id_aes_gcm_enc_256];
+  gcm_full id_isal_aes_gcm_dec_128 id_u_aes_gcm_dec_128 [id_aes_gcm_dec_128];
+  gcm_full id_isal_aes_gcm_dec_256 id_u_aes_gcm_dec_256 [id_aes_gcm_dec_256];
+  gcm_full id_isal_aes_gcm_enc_128_nt id_u_aes_gcm_enc_128_nt [id_aes_gcm_enc_128_nt];
+  gcm_full id_isal_aes_gcm_enc_256_nt id_u_aes_gcm_enc_256_nt [id_aes_gcm_enc_256_nt];
+  gcm_full id_isal_aes_gcm_dec_128_nt id_u_aes_gcm_dec_128_nt [id_aes_gcm_dec_128_nt];
+  gcm_full id_isal_aes_gcm_dec_256_nt id_u_aes_gcm_dec_256_nt [id_aes_gcm_dec_256_nt];
+  gcm_init id_isal_aes_gcm_init_128 id_u_aes_gcm_init_128 [id_aes_gcm_init_128];
+  gcm_init id_isal_aes_gcm_init_256 id_u_aes_gcm_init_256 [id_aes_gcm_init_256];
+  gcm_update id_isal_aes_gcm_enc_128_update id_u_aes_gcm_enc_128_update [id_aes_gcm_enc_128_update];
+  gcm_update id_isal_aes_gcm_enc_256_update id_u_aes_gcm_enc_256_update [id_aes_gcm_enc_256_update];
+  gcm_update id_isal_aes_gcm_dec_128_update id_u_aes_gcm_dec_128_update [id_aes_gcm_dec_128_update];
+  gcm_update id_isal_aes_gcm_dec_256_update id_u_aes_gcm_dec_256_update [id_aes_gcm_dec_256_update];
+  gcm_update id_isal_aes_gcm_enc_128_update_nt id_u_aes_gcm_enc_128_update_nt [id_aes_gcm_enc_128_update_nt];
+  gcm_update id_isal_aes_gcm_enc_256_update_nt id_u_aes_gcm_enc_256_update_nt [id_aes_gcm_enc_256_update_nt];
+  gcm_update id_isal_aes_gcm_dec_128_update_nt id_u_aes_gcm_dec_128_update_nt [id_aes_gcm_dec_128_update_nt];
+  gcm_update id_isal_aes_gcm_dec_256_update_nt id_u_aes_gcm_dec_256_update_nt [id_aes_gcm_dec_256_update_nt];
+  gcm_final id_isal_aes_gcm_enc_128_finalize id_u_aes_gcm_enc_128_finalize [id_aes_gcm_enc_128_finalize];
+  gcm_final id_isal_aes_gcm_enc_256_finalize id_u_aes_gcm_enc_256_finalize [id_aes_gcm_enc_256_finalize];
+  gcm_final id_isal_aes_gcm_dec_128_finalize id_u_aes_gcm_dec_128_finalize [id_aes_gcm_dec_128_finalize];
+  gcm_final id_isal_aes_gcm_dec_256_finalize id_u_aes_gcm_dec_256_finalize [id_aes_gcm_dec_256_finalize];
+  gcm_pre id_isal_aes_gcm_pre_128 id_u_aes_gcm_pre_128 [id_aes_gcm_pre_128];
+  gcm_pre id_isal_aes_gcm_pre_256 id_u_aes_gcm_pre_256 [id_aes_gcm_pre_256];
+  cbc_enc id_isal_aes_cbc_enc_128 id_u_aes_cbc_enc_128 [id_aes_cbc_enc_128];
+  cbc_enc id_isal_aes_cbc_enc_192 id_u_aes_cbc_enc_192 [id_aes_cbc_enc_192];
+  cbc_enc id_isal_aes_cbc_enc_256 id_u_aes_cbc_enc_256 [id_aes_cbc_enc_256];
+  cbc_dec id_isal_aes_cbc_dec_128 id_u_aes_cbc_dec_128 [id_aes_cbc_dec_128];
+  cbc_dec id_isal_aes_cbc_dec_192 id_u_aes_cbc_dec_192 [id_aes_cbc_dec_192];
+  cbc_dec id_isal_aes_cbc_dec_256 id_u_aes_cbc_dec_256 [id_aes_cbc_dec_256];
+  keyexp id_isal_aes_keyexp_128 id_u_aes_keyexp_128 [id_aes_keyexp_128];
+  keyexp id_isal_aes_keyexp_192 id_u_aes_keyexp_192 [id_aes_keyexp_192];
+  keyexp id_isal_aes_keyexp_256 id_u_aes_keyexp_256 [id_aes_keyexp_256];
   (* raw keys: the 16 (32) key bytes; expanded encryption keys: the whole schedule, 16*11
      (16*15) bytes; expanded decryption: k1 is the *decryption* schedule of the data key,
      whose last round-key slot is the raw key's first 16 bytes = first slot of the tweak
      key's encryption schedule (and for 256-bit keys its first slot is the last slot of k2) *)
-  xts id_isal_aes_xts_enc_128 id__XTS_AES_128_enc [id_XTS_AES_128_enc] (mem_eq 0 0 16);
-  xts id_isal_aes_xts_dec_128 id__XTS_AES_128_dec [id_XTS_AES_128_dec] (mem_eq 0 0 16);
-  xts id_isal_aes_xts_enc_256 id__XTS_AES_256_enc [id_XTS_AES_256_enc] (mem_eq 0 0 32);
-  xts id_isal_aes_xts_dec_256 id__XTS_AES_256_dec [id_XTS_AES_256_dec] (mem_eq 0 0 32);
-  xts id_isal_aes_xts_enc_128_expanded_key id__XTS_AES_128_enc_expanded_key [id_XTS_AES_128_enc_expanded_key] (mem_eq 0 0 176);
-  xts id_isal_aes_xts_enc_256_expanded_key id__XTS_AES_256_enc_expanded_key [id_XTS_AES_256_enc_expanded_key] (mem_eq 0 0 240);
-  xts id_isal_aes_xts_dec_128_expanded_key id__XTS_AES_128_dec_expanded_key [id_XTS_AES_128_dec_expanded_key] (mem_eq 160 0 16);
-  xts id_isal_aes_xts_dec_256_expanded_key id__XTS_AES_256_dec_expanded_key [id_XTS_AES_256_dec_expanded_key]
+  xts id_isal_aes_xts_enc_128 id_u_XTS_AES_128_enc [id_XTS_AES_128_enc] (mem_eq 0 0 16);
+  xts id_isal_aes_xts_dec_128 id_u_XTS_AES_128_dec [id_XTS_AES_128_dec] (mem_eq 0 0 16);
+  xts id_isal_aes_xts_enc_256 id_u_XTS_AES_256_enc [id_XTS_AES_256_enc] (mem_eq 0 0 32);
+  xts id_isal_aes_xts_dec_256 id_u_XTS_AES_256_dec [id_XTS_AES_256_dec] (mem_eq 0 0 32);
+  xts id_isal_aes_xts_enc_128_expanded_key id_u_XTS_AES_128_enc_expanded_key [id_XTS_AES_128_enc_expanded_key] (mem_eq 0 0 176);
+  xts id_isal_aes_xts_enc_256_expanded_key id_u_XTS_AES_256_enc_expanded_key [id_XTS_AES_256_enc_expanded_key] (mem_eq 0 0 240);
+  xts id_isal_aes_xts_dec_128_expanded_key id_u_XTS_AES_128_dec_expanded_key [id_XTS_AES_128_dec_expanded_key] (mem_eq 160 0 16);
+  xts id_isal_aes_xts_dec_256_expanded_key id_u_XTS_AES_256_dec_expanded_key [id_XTS_AES_256_dec_expanded_key]
       (FAnd (mem_eq 224 0 16) (mem_eq 0 224 16));
-  hash_init Approved id_isal_sha1_ctx_mgr_init id__sha1_ctx_mgr_init [id_sha1_ctx_mgr_init];
-  hash_submit Approved id_isal_sha1_ctx_mgr_submit id__sha1_ctx_mgr_submit [id_sha1_ctx_mgr_submit];
-  hash_flush Approved id_isal_sha1_ctx_mgr_flush id__sha1_ctx_mgr_flush [id_sha1_ctx_mgr_flush];
-  hash_init Approved id_isal_sha256_ctx_mgr_init id__sha256_ctx_mgr_init [id_sha256_ctx_mgr_init];
-  hash_submit Approved id_isal_sha256_ctx_mgr_submit id__sha256_ctx_mgr_submit [id_sha256_ctx_mgr_submit];
-  hash_flush Approved id_isal_sha256_ctx_mgr_flush id__sha256_ctx_mgr_flush [id_sha256_ctx_mgr_flush];
-  hash_init Approved id_isal_sha512_ctx_mgr_init id__sha512_ctx_mgr_init [id_sha512_ctx_mgr_init];
-  hash_submit Approved id_isal_sha512_ctx_mgr_submit id__sha512_ctx_mgr_submit [id_sha512_ctx_mgr_submit];
-  hash_flush Approved id_isal_sha512_ctx_mgr_flush id__sha512_ctx_mgr_flush [id_sha512_ctx_mgr_flush];
-  hash_init NonApproved id_isal_md5_ctx_mgr_init id__md5_ctx_mgr_init [id_md5_ctx_mgr_init];
-  hash_submit NonApproved id_isal_md5_ctx_mgr_submit id__md5_ctx_mgr_submit [id_md5_ctx_mgr_submit];
-  hash_flush NonApproved id_isal_md5_ctx_mgr_flush id__md5_ctx_mgr_flush [id_md5_ctx_mgr_flush];
-  hash_init NonApproved id_isal_sm3_ctx_mgr_init id__sm3_ctx_mgr_init [id_sm3_ctx_mgr_init];
-  hash_submit NonApproved id_isal_sm3_ctx_mgr_submit id__sm3_ctx_mgr_submit [id_sm3_ctx_mgr_submit];
-  hash_flush NonApproved id_isal_sm3_ctx_mgr_flush id__sm3_ctx_mgr_flush [id_sm3_ctx_mgr_flush];
-  mh_init id_isal_mh_sha1_init id__mh_sha1_init [id_mh_sha1_init];
-  mh_update id_isal_mh_sha1_update id__mh_sha1_update [id_mh_sha1_update];
-  mh_final id_isal_mh_sha1_finalize id__mh_sha1_finalize [id_mh_sha1_finalize];
-  mh_init id_isal_mh_sha256_init id__mh_sha256_init [id_mh_sha256_init];
-  mh_update id_isal_mh_sha256_update id__mh_sha256_update [id_mh_sha256_update];
-  mh_final id_isal_mh_sha256_finalize id__mh_sha256_finalize [id_mh_sha256_finalize];
+  hash_init Approved id_isal_sha1_ctx_mgr_init id_u_sha1_ctx_mgr_init [id_sha1_ctx_mgr_init];
+  hash_submit Approved id_isal_sha1_ctx_mgr_submit id_u_sha1_ctx_mgr_submit [id_sha1_ctx_mgr_submit];
+  hash_flush Approved id_isal_sha1_ctx_mgr_flush id_u_sha1_ctx_mgr_flush [id_sha1_ctx_mgr_flush];
+  hash_init Approved id_isal_sha256_ctx_mgr_init id_u_sha256_ctx_mgr_init [id_sha256_ctx_mgr_init];
+  hash_submit Approved id_isal_sha256_ctx_mgr_submit id_u_sha256_ctx_mgr_submit [id_sha256_ctx_mgr_submit];
+  hash_flush Approved id_isal_sha256_ctx_mgr_flush id_u_sha256_ctx_mgr_flush [id_sha256_ctx_mgr_flush];
+  hash_init Approved id_isal_sha512_ctx_mgr_init id_u_sha512_ctx_mgr_init [id_sha512_ctx_mgr_init];
+  hash_submit Approved id_isal_sha512_ctx_mgr_submit id_u_sha512_ctx_mgr_submit [id_sha512_ctx_mgr_submit];
+  hash_flush Approved id_isal_sha512_ctx_mgr_flush id_u_sha512_ctx_mgr_flush [id_sha512_ctx_mgr_flush];
+  hash_init NonApproved id_isal_md5_ctx_mgr_init id_u_md5_ctx_mgr_init [id_md5_ctx_mgr_init];
+  hash_submit NonApproved id_isal_md5_ctx_mgr_submit id_u_md5_ctx_mgr_submit [id_md5_ctx_mgr_submit];
+  hash_flush NonApproved id_isal_md5_ctx_mgr_flush id_u_md5_ctx_mgr_flush [id_md5_ctx_mgr_flush];
+  hash_init NonApproved id_isal_sm3_ctx_mgr_init id_u_sm3_ctx_mgr_init [id_sm3_ctx_mgr_init];
+  hash_submit NonApproved id_isal_sm3_ctx_mgr_submit id_u_sm3_ctx_mgr_submit [id_sm3_ctx_mgr_submit];
+  hash_flush NonApproved id_isal_sm3_ctx_mgr_flush id_u_sm3_ctx_mgr_flush [id_sm3_ctx_mgr_flush];
+  mh_init id_isal_mh_sha1_init id_u_mh_sha1_init [id_mh_sha1_init];
+  mh_update id_isal_mh_sha1_update id_u_mh_sha1_update [id_mh_sha1_update];
+  mh_final id_isal_mh_sha1_finalize id_u_mh_sha1_finalize [id_mh_sha1_finalize];
+  mh_init id_isal_mh_sha256_init id_u_mh_sha256_init [id_mh_sha256_init];
+  mh_update id_isal_mh_sha256_update id_u_mh_sha256_update [id_mh_sha256_update];
+  mh_final id_isal_mh_sha256_finalize id_u_mh_sha256_finalize [id_mh_sha256_finalize];
   E id_isal_mh_sha1_murmur3_x64_128_init NonApproved [p_ctx 0; p_free]
-    (sh_tail id__mh_sha1_murmur3_x64_128_init [0;1]) [id_mh_sha1_murmur3_x64_128_init];
-  mh_update id_isal_mh_sha1_murmur3_x64_128_update id__mh_sha1_murmur3_x64_128_update [id_mh_sha1_murmur3_x64_128_update];
+    (sh_tail id_u_mh_sha1_murmur3_x64_128_init [0;1]) [id_mh_sha1_murmur3_x64_128_init];
+  mh_update id_isal_mh_sha1_murmur3_x64_128_update id_u_mh_sha1_murmur3_x64_128_update [id_mh_sha1_murmur3_x64_128_update];
   E id_isal_mh_sha1_murmur3_x64_128_finalize NonApproved [p_ctx 0; p_digest 1; p_digest 2]
-    (sh_tail id__mh_sha1_murmur3_x64_128_finalize [0;1;2]) [id_mh_sha1_murmur3_x64_128_finalize];
+    (sh_tail id_u_mh_sha1_murmur3_x64_128_finalize [0;1;2]) [id_mh_sha1_murmur3_x64_128_finalize];
   (* rolling hash (not approved) *)
-  E id_isal_rolling_hash2_init NonApproved [p_ctx 0; p_window 1] (sh_inl id__rolling_hash2_init [0;1]) [id_rolling_hash2_init];
-  E id_isal_rolling_hash2_reset NonApproved [p_ctx 0; P (isnull 1) [NULL_INIT_VAL]] (sh id__rolling_hash2_reset [0;1]) [id_rolling_hash2_reset];
+  E id_isal_rolling_hash2_init NonApproved [p_ctx 0; p_window 1] (sh_inl id_u_rolling_hash2_init [0;1]) [id_rolling_hash2_init];
+  E id_isal_rolling_hash2_reset NonApproved [p_ctx 0; P (isnull 1) [NULL_INIT_VAL]] (sh id_u_rolling_hash2_reset [0;1]) [id_rolling_hash2_reset];
   E id_isal_rolling_hash2_run NonApproved
     [p_ctx 0; p_src 1; p_free; p_free; p_free; P (isnull 5) [NULL_OFFSET]; P (isnull 6) [NULL_MATCH]]
-    (sh_out id__rolling_hash2_run [0;1;2;3;4;5] 6 RZero) [id_rolling_hash2_run];
+    (sh_out id_u_rolling_hash2_run [0;1;2;3;4;5] 6 RZero) [id_rolling_hash2_run];
   E id_isal_rolling_hashx_mask_gen NonApproved [p_free; p_free; P (isnull 2) [NULL_MASK]]
-    (sh_out id__rolling_hashx_mask_gen [0;1] 2 RZero) [id_rolling_hashx_mask_gen];
+    (sh_out id_u_rolling_hashx_mask_gen [0;1] 2 RZero) [id_rolling_hashx_mask_gen];
   (* no parameters, no cryptography: outside both properties' quantifiers *)
   neutral id_isal_self_tests;
   neutral id_isal_crypto_get_version;
